@@ -375,6 +375,42 @@ func c16UserEval(e *Env, c *c16Config) {
 	r := cli.In("", args...)
 	if !r.OK() {
 		fail("C16/user-dict/describe-fails", firstLine(r.Stderr))
+		return
+	}
+	// ... and describes the chord with the notes its definition means (as a multiset; the order of the listing is not prescribed)
+	look := first.Meta.Display
+	if !c16Ambiguous(c.Chords, look) {
+		var ci struct {
+			Attributes []yAttrInfo `yaml:"attributes"`
+		}
+		if err := yaml.Unmarshal(r.Stdout, &ci); err != nil {
+			fail("C16/user-dict/describe-output", err.Error())
+			return
+		}
+		want, _ := rd.Resolve(look)
+		var ws, gs []string
+		for _, w := range want {
+			ws = append(ws, w.Notation())
+		}
+		rootC, _ := theory.ParseNote("C")
+		for _, a := range ci.Attributes {
+			iv, ok := theory.ParseNotation(a.Attribute.Degree)
+			if !ok {
+				fail("C16/user-dict/describe-wrong", fmt.Sprintf("describe lists an attribute with degree %q", a.Attribute.Degree))
+				return
+			}
+			gs = append(gs, iv.Notation())
+			if msg := c15CheckInfo(a, rootC, iv, false); msg != "" {
+				fail("C16/user-dict/describe-wrong", fmt.Sprintf("info chord describe -t %s: %s", target, msg))
+				return
+			}
+		}
+		sort.Strings(ws)
+		sort.Strings(gs)
+		if strings.Join(ws, " ") != strings.Join(gs, " ") {
+			fail("C16/user-dict/describe-wrong", fmt.Sprintf("info chord describe -t %s lists the intervals %v, the definition means %v", target, gs, ws))
+			return
+		}
 	}
 	e.R.Outcome("consistent")
 }
